@@ -16,6 +16,12 @@
      frames    "one" | "many" (the body is several zstd frames / gzip members; its decoding is the concatenation,
                RFC 8878 3.1 / RFC 1952 2.2; sizes are those of the whole body)
      transfer  "cl" (Content-Length) | "chunked" (Transfer-Encoding: chunked through a real HTTP server)
+     route     the RPC route the body is posted to: "unary" | "init" | "exchange" | "upload" (/__upload_url__/init)
+     mname     the method name in the URL: "plain" | "health_prefixed" (begins with the name of the cap-exempt health
+               endpoint, e.g. /health_check, /healthz/init) | "health" (a stream method literally named health, so
+               that its routes /health/init and /health/exchange lie *under* the exempt endpoint's path)
+   The statement speaks of "any request body": neither the route nor the method name changes the outcome
+   (RouteIrrelevant).
 
    Faults and the status the statement attaches to each:
        wire size above the cap                          413
@@ -58,15 +64,28 @@ Valid(c) ==
        /\ c.integ # "ok" => c.decl \in {"honest", "absent"} /\ c.dec \in {"lt", "bomb", "na"}
        /\ c.frames = "many" => c.integ = "ok" /\ c.decl \in {"honest", "absent"}
   /\ c.codec \notin Compressed => c.frames = "one"
+  /\ c.mname = "health" => c.route \in {"init", "exchange"}
+  /\ c.route = "upload" => c.mname = "plain"
+  \* the framing detail (transfer, frame count, damage, lying declarations, bombs) is crossed with the unary route;
+  \* the other routes / names get the size and codec classes
+  /\ (c.route # "unary" \/ c.mname # "plain") =>
+        c.transfer = "cl" /\ c.frames = "one" /\ c.integ = "ok" /\ c.decl \in {"honest", "absent", "na"} /\ c.dec # "bomb"
 
 Space == [cap : Caps, codec : Codecs, enc : {"lt", "eq", "gt", "na"}, dec : {"lt", "eq", "gt", "bomb", "na"},
           decl : {"honest", "absent", "low", "high_in", "high_over", "na"},
-          integ : {"ok", "corrupt", "truncated"}, frames : {"one", "many"}, transfer : {"cl", "chunked"}]
+          integ : {"ok", "corrupt", "truncated"}, frames : {"one", "many"}, transfer : {"cl", "chunked"},
+          route : {"unary", "init", "exchange", "upload"}, mname : {"plain", "health_prefixed", "health"}]
 \* split for TLC's workers
 Seeds == {[cap |-> k, codec |-> d, enc |-> "na", dec |-> "na", decl |-> "na", integ |-> "ok", frames |-> "one",
-           transfer |-> "cl"] :
-            k \in Caps, d \in Codecs}
-Expand(p) == {c \in Space : c.cap = p.cap /\ c.codec = p.codec /\ Valid(c)}
+           transfer |-> "cl", route |-> r, mname |-> "plain"] :
+            k \in Caps, d \in Codecs, r \in {"unary", "init", "exchange", "upload"}}
+Expand(p) == LET One(x) == {x}
+                 Sub == [cap : One(p.cap), codec : One(p.codec), route : One(p.route), enc : {"lt", "eq", "gt", "na"},
+                         dec : {"lt", "eq", "gt", "bomb", "na"},
+                         decl : {"honest", "absent", "low", "high_in", "high_over", "na"},
+                         integ : {"ok", "corrupt", "truncated"}, frames : {"one", "many"},
+                         transfer : {"cl", "chunked"}, mname : {"plain", "health_prefixed", "health"}]
+             IN {c \in Sub : Valid(c)}
 Cases == UNION {Expand(p) : p \in Seeds}
 
 \* ---------------------------------------------------------------- the table
@@ -105,6 +124,7 @@ IdentityIsTransparent(c) ==      \* identity behaves exactly like no Content-Enc
   c.codec = "identity" => Admissible(c) = Admissible([c EXCEPT !.codec = "none"])
 SingleFaultExact(c) == Cardinality(Faults(c)) = 1 /\ ~LenientPass(c) => Cardinality(Admissible(c)) = 1
 TransferIrrelevant(c) == Admissible(c) = Admissible([c EXCEPT !.transfer = "cl"])
+RouteIrrelevant(c) == Admissible(c) = Admissible([c EXCEPT !.route = "unary", !.mname = "plain"])
 
 \* ---------------------------------------------------------------- judging what the real code did
 (* observation o = [status, reached, equal, capv, produced, peak]
